@@ -714,8 +714,61 @@ fn collect_run(ctx: &Ctx, prop: &'static str, over: Option<(&'static [WSym], usi
     (tally, meta)
 }
 
+/// Scaling family for the fragmented muxer: fragments of n samples for every n up to a bound
+/// (long trun tables, payload sizes across 64 KiB), three step patterns, two flush cadences.
+fn scaling(ctx: &Ctx, prop: &'static str) -> Tally {
+    let max = if ctx.thorough { 200 } else { 80 };
+    let cfgs: Vec<FCfg> = configs(false).into_iter().filter(|c| c.via_builder && c.start_dts == 9000).collect();
+    let items: Vec<(FCfg, usize)> = cfgs.iter().flat_map(|c| (1..=max).map(move |n| (c.clone(), n))).collect();
+    par_items(&items, ctx.seed, |idx, (cfg, n), t| {
+        for pattern in 0..3usize {
+            for cadence in [*n, (*n / 3).max(1)] {
+                let mut h: Vec<FOp> = vec![];
+                let mut dts = cfg.start_dts;
+                for i in 0..*n {
+                    let step = match pattern {
+                        0 => 3000,
+                        1 => [3003u64, 3003, 3004][i % 3],
+                        _ => (i as u64 % 5) * 1500,
+                    };
+                    if i > 0 {
+                        dts += step;
+                    }
+                    let off = [0i64, 6000, -3000, 3000][i % 4];
+                    let pts = (dts as i64 + off).max(0) as u64;
+                    let size = if i == n / 2 && *n % 16 == 0 { 66_000 } else { 1 + (i * 7) % 23 };
+                    h.push(FOp::Write { pts, dts, data: oracle::model::hex(&body(i as u32, size)), sync: i % 8 == 0 });
+                    if (i + 1) % cadence == 0 {
+                        h.push(FOp::Flush);
+                    }
+                }
+                h.push(FOp::Flush);
+                h.push(FOp::Init);
+                t.evaluations += 1;
+                t.states += 1;
+                t.transitions += h.len() as u64;
+                match guarded(|| replay_history(cfg, &h)) {
+                    Ok(Ok((_, _, issues))) => {
+                        for (p, sig, detail) in issues {
+                            if p == prop {
+                                t.violation(&format!("{p}/scaling/{sig}"), (6_000_000 + idx as u64, (pattern * 2) as u64), || format!("{:?} n={n} pattern {pattern} cadence {cadence}: {detail}", cfg.codec), || json!({"engine": "E5", "cfg": cfg, "history": h, "brief": format!("{} operations", h.len())}));
+                            }
+                        }
+                    }
+                    Ok(Err(_)) => {}
+                    Err(p) => t.violation(&format!("{prop}/scaling/panic"), (6_000_000 + idx as u64, 0), || format!("n={n} pattern {pattern}: {p}"), || json!({"engine": "E5", "cfg": cfg, "history": h})),
+                }
+            }
+        }
+    })
+}
+
 pub fn check(ctx: &Ctx, prop: &'static str) -> i32 {
-    let (tally, meta) = collect(ctx, prop);
+    let (mut tally, mut meta) = collect(ctx, prop);
+    let t2 = scaling(ctx, prop);
+    tally.count("scaling_histories", t2.evaluations);
+    tally.merge(t2);
+    meta.rule = format!("{} Scaling family: fragments of every sample count 1..={} x 3 decode-step patterns x 2 flush cadences x 4 codecs (one 66 KB sample in some), replayed with the same model.", meta.rule, if ctx.thorough { 200 } else { 80 });
     finish(ctx, &tally, meta)
 }
 
